@@ -36,6 +36,7 @@ func C13(r *core.Run) {
 	rule091nil(r, ctx, reach)
 	rule134(r, fn)
 	rule135(r, ctx, fn)
+	rule057(r)
 	rule136(r)
 	rule137(r, fn)
 	rule138(r, fn)
